@@ -20,6 +20,8 @@ NAME_SCHEMES = {
     'g': lambda i: ['start', 'start2', 'accept', 'accept2', 'start1', 'accept1'][i],   # names the library itself generates as fresh (prefix + count)
     'K': lambda i: ['Final', 'Initial', 'States', 'Epsilon', 'Blank', 'Accept'][i],    # keywords in another letter case
     'b': lambda i: ['{}', '{q0}', '{q0,q1}', '(s0,r0)', '{q1}', '(s0,r1)'][i],         # names the library's own constructions produce (sets, pairs)
+    'G': lambda i: ['M2', 'M3', 'q_accept2', 'q_drain2', 'q_initial2', 'M5'][i],       # wave 7: generated prefixes with a GAP below them (M1, q_accept1 are free): "first free index, then count on" hands out M2
+    'H': lambda i: ['trap2', 'q2', 'trap3', 'q3', 'P2', 'start2'][i],                  # the same for the DFA / NFA constructions (trap1, q1, P1 free)
     'n': lambda i: ['\u212a', '\u2126', 'q\u212b', 'K', '\u03a9', 'q\u00c5'][i],      # code points that change under unicode normalisation (KELVIN SIGN vs K, OHM SIGN vs Omega)
 }
 
